@@ -221,6 +221,9 @@ func hashOf(seed uint64, parts ...any) uint64 {
 }
 
 func (r *Run) finish() *Result {
+	if n, at := r.Tape.Overflow(); n > 0 && r.res.Verdict == "ok" {
+		r.Infra("harness: %d draws from an exhausted tape block (first at %s): the block is sized too small", n, at)
+	}
 	r.res.TraceHash = fmt.Sprintf("%016x", r.th)
 	r.res.Trace = r.lines
 	r.res.Tape = r.Tape.Recorded()
